@@ -13,12 +13,12 @@ git apply "$d/patch.diff"
 trap 'git -C /repo checkout -- . >/dev/null 2>&1' EXIT INT TERM
 echo "== repository tests with the change"; /venv/bin/python -m pytest -q -p no:cacheprovider 2>&1 | tail -1
 echo "== demo with the change (must exit non-zero)"; $runner "$demo" /repo >/tmp/mut_demo_mut.log 2>&1; echo "demo_mutant_exit=$?"
-cd /verif
+cd ${VERIF_DIR:-/verif}
 for c in "$@"; do
   ./check "$c" --tier quick >/tmp/mut_check_$c.log 2>&1; rc=$?
   echo "check $c exit=$rc  $(grep -c '^VIOLATION' /tmp/mut_check_$c.log) violation lines; $(tail -1 /tmp/mut_check_$c.log | cut -c1-160)"
   grep -m2 'what:' /tmp/mut_check_$c.log | cut -c1-220
 done
-rm -rf /verif/replays/violations
+rm -rf ${VERIF_DIR:-/verif}/replays/violations
 git -C /repo checkout -- .
 echo "== restored: $(git -C /repo status --porcelain | wc -l) modified files"
